@@ -10,6 +10,7 @@ for spec in "$@"; do
     *g) base=${id%g}; wt=/tmp/wt7_$base;;
     *h) base=${id%h}; wt=/tmp/wt8_$base;;
     *i) base=${id%i}; wt=/tmp/wt9_$base;;
+    *j) base=${id%j}; wt=/tmp/wt10_$base;;
   esac
   bash /verif/tools/confirm_seeded.sh $id $wt $tests
 done
